@@ -66,6 +66,7 @@ def run(ctx):
     take = inputs[: (12000 if th else 1500)]
     res, out, rc = ctx.go_test("internal/aggregator", "TestVerifC03", inp=take,
                                env={"VERIF_NRANDOM": 3000 if th else 400,
+                                    "VERIF_NWRAPPED": 12 if th else 4, "VERIF_NOVERLAP": 40 if th else 6,
                                     "VERIF_BIGUNIQ": "3000,40000,65535,65536,65537,100000,140000" if th else "3000"},
                                timeout=2400)
     res = ctx.need_result(res, out, rc, "TestVerifC03")
